@@ -39,7 +39,9 @@ type PScript struct {
 	Shape string `json:"shape"` // unary | cstream | sstream | bidi
 	Code  int    `json:"code"`
 	Det   int    `json:"det"`
-	Wait  bool   `json:"wait"` // the client reads the first reply before it sends anything (bidi)
+	Wait  bool   `json:"wait"`  // the client reads the first reply before it sends anything (bidi)
+	Mode  string `json:"mode"`  // batch | lockstep (bidi: send one, await its answer, ...; the backend echoes)
+	FailK int    `json:"failK"` // lockstep: the backend fails instead of answering message FailK (0 = never)
 }
 
 type PView struct {
@@ -137,6 +139,26 @@ func newPBackend() (*pbackend, error) {
 	}
 	st := func(full string, md protoreflect.MethodDescriptor, ss grpc.ServerStream) error {
 		pv, s := view(ss.Context())
+		if s.Mode == "lockstep" {
+			for k := 1; ; k++ {
+				m := dynamicpb.NewMessage(reqDesc())
+				if err := ss.RecvMsg(m); err != nil {
+					if err == io.EOF {
+						return nil
+					}
+					return err
+				}
+				b.mu.Lock()
+				pv.BGot = append(pv.BGot, idx(m))
+				b.mu.Unlock()
+				if k == s.FailK {
+					return scriptStatus(s)
+				}
+				if err := ss.SendMsg(repMsg(s.ID, k, 3)); err != nil {
+					return err
+				}
+			}
+		}
 		if s.FailAt == "before" {
 			return scriptStatus(s)
 		}
@@ -230,9 +252,12 @@ func runCall(cc *grpc.ClientConn, s PScript, callID string) PView {
 		if s.Wait {
 			more = readOne()
 		}
-		for i := 1; i <= s.N; i++ {
+		for i := 1; i <= s.N && more; i++ {
 			if err := cs.SendMsg(reqMsg(s.ID, i, 3)); err != nil {
 				break // the call has ended: the status comes from RecvMsg
+			}
+			if s.Mode == "lockstep" {
+				more = readOne() // the answer to message i, with the send side still open
 			}
 		}
 		cs.CloseSend()
